@@ -45,6 +45,23 @@ def run_scenarios(ctx, repeat, scenarios=None):
     return trace, res
 
 
+def real_server_kinds(ctx, scenarios, kinds, repeat=1):
+    """Run real-server scenarios, validate with ClusterViewTrace and report the failed checks of the given kinds
+    (for checks whose main binding is elsewhere but whose property also speaks about the running system)."""
+    trace, res = run_scenarios(ctx, repeat, scenarios)
+    v, n = vlib.validate_trace(ctx, "ClusterViewTrace", "ClusterViewTrace.cfg", trace, lambda l: l.startswith('{"ev":"scenario"'), chunk_events=100000)
+    lines = open(trace).read().splitlines()
+    by = {}
+    for x in v:
+        if x[1] in kinds:
+            e = json.loads(lines[x[0]])
+            by.setdefault("%s@servers:%s" % (x[1], e.get("after", e["ev"])), []).append(e)
+    for sig in sorted(by):
+        e = by[sig][0]
+        ctx.finding(sig, "%s: %s (%d such events)" % (sig, json.dumps(e)[:500], len(by[sig])), {"event": e})
+    return lines, sum(len(x) for x in by.values())
+
+
 def run_family(ctx):
     quick = ctx.tier == "quick"
     if ctx.pid == "C14":
